@@ -150,7 +150,7 @@ def fn_level(ctx):
             "map (fun a => (digest 64 (rlencode a None), "
             "forallb (fun c => rle_opt_eqb (rlencode a (Some c)) (rlencode a None)) " + C.zl(BLOCKS) + ", "
             "index_pixels a 4 (zlen a), index_bins a 4 (zlen a), index_pixels a 2 (zlen a + 3))) " + lit)
-    model = C.coq_eval(IMPORTS, exprs, tmpdir=ctx.tmp / "fn_small", shard=20)
+    model = C.coq_eval(IMPORTS, exprs, tmpdir=ctx.tmp / "fn_small", shard=14, jobs=4)
     flat = [x for blk in model for x in blk]
     assert len(flat) == len(arrays)
     for a, (mdig, msame, mip4, mib4, mip2) in zip(arrays, flat):
@@ -183,7 +183,7 @@ def fn_level(ctx):
 
     # refusals: chunksize <= 0 on a non-empty array raises ValueError; the empty array never does
     ref = [([], 0), ([], -1), ([], 3), ([1], 0), ([1, 1, 2], 0), ([0, 3], -1), ([2, 2], -5)]
-    mref = C.coq_eval(IMPORTS, [f"rlencode {C.zl(a)} (Some {C.z(c)})" for a, c in ref], tmpdir=ctx.tmp / "fn_ref")
+    mref = C.coq_eval(IMPORTS, [f"rlencode {C.zl(a)} (Some {C.z(c)})" for a, c in ref], tmpdir=ctx.tmp / "fn_ref", jobs=4)
     for (a, c), mo in zip(ref, mref):
         case = {"fn": "rlencode-refusal", "array": a, "chunksize": c}
         ctx.case(case, nontrivial=False, kind="fn:refusal")
@@ -204,7 +204,7 @@ def fn_level(ctx):
         longs.append((a, cs))
     exprs = [f"(rlencode {C.zl(a)} None, forallb (fun c => rle_opt_eqb (rlencode {C.zl(a)} (Some c)) (rlencode {C.zl(a)} None)) {C.zl(cs)}, "
              f"index_pixels {C.zl(a)} {C.z(max(a) + 2)} (zlen {C.zl(a)}))" for a, cs in longs]
-    mlong = C.coq_eval(IMPORTS, exprs, tmpdir=ctx.tmp / "fn_long", shard=15)
+    mlong = C.coq_eval(IMPORTS, exprs, tmpdir=ctx.tmp / "fn_long", shard=30, jobs=4)
     for (a, cs), (mone, msame, mip) in zip(longs, mlong):
         case = {"fn": "rlencode-long", "array": a, "chunksizes": cs}
         ctx.case(case, nontrivial=True, kind="fn:long")
@@ -231,7 +231,7 @@ def fn_level(ctx):
         a = [rng.randint(-3, 6) for _ in range(rng.randint(0, 9))]
         mal.append((a, rng.randint(0, 5), rng.randint(0, 12)))
     exprs = [f"(index_pixels {C.zl(a)} {C.z(n)} {C.z(t)}, index_bins {C.zl(a)} {C.z(n)} {C.z(t)})" for a, n, t in mal]
-    mmal = C.coq_eval(IMPORTS, exprs, tmpdir=ctx.tmp / "fn_mal", shard=50)
+    mmal = C.coq_eval(IMPORTS, exprs, tmpdir=ctx.tmp / "fn_mal", shard=50, jobs=4)
     for (a, n, t), (m1, m2) in zip(mal, mmal):
         case = {"fn": "index-malformed", "array": a, "n": n, "total": t}
         ctx.case(case, nontrivial=len(a) >= 2, kind="fn:malformed")
@@ -375,9 +375,10 @@ def collection_expr(raw):
     rec = (f"(mkCooler {C.z(A['nbins'])} {C.z(A['nchroms'])} {C.zl(chrom)} {C.zl(b1)} {C.zl(b2)} {C.zl(cnt)} "
            f"{C.zl(int(x) for x in raw['indexes']['bin1_offset'])} {C.zl(int(x) for x in raw['indexes']['chrom_offset'])} "
            f"{C.z(A['nnz'])} {C.z(int(A.get('sum', 0)))} {C.b(A['storage-mode'] == 'symmetric-upper')})")
+    table = C.lst([C.tup(C.z(c), C.z(s_), C.z(e)) for c, s_, e in zip(chrom, raw["bins"]["start"], raw["bins"]["end"])])
     return (f"let c := {rec} in (valid_csr_b c, index_pixels (bin1 c) (nbins c) (nnz c), "
             f"index_bins (bin_chrom c) (nchroms c) (nbins c), rlencode (bin1 c) None, "
-            f"forallb (fun k => rle_opt_eqb (rlencode (bin1 c) (Some k)) (rlencode (bin1 c) None)) [1; 2; 3; 7; 1000000])")
+            f"forallb (fun k => rle_opt_eqb (rlencode (bin1 c) (Some k)) (rlencode (bin1 c) None)) [1; 2; 3; 7; 1000000], info_bins {table})")
 
 
 # class of errors the executable model check valid_csr_b can see (it has no bins start/end,
@@ -446,6 +447,8 @@ def check_recipe(ctx, recipe, pending, tag):
                         "stored_bin1_offset": [int(x) for x in raw["indexes"]["bin1_offset"]],
                         "stored_chrom_offset": [int(x) for x in raw["indexes"]["chrom_offset"]],
                         "oracle_ok": not model_sees(errs),
+                        "info": (A["bin-type"] == "fixed", None if A["bin-size"] == "null" else A["bin-size"])
+                                if A["bin-type"] in ("fixed", "variable") else ("?", A["bin-type"], A["bin-size"]),
                     }
                     pending.append((ccase, ex, impl))
     shutil.rmtree(d, ignore_errors=True)
@@ -459,9 +462,11 @@ def e2e(ctx):
         check_recipe(ctx, r, pending, k)
     ctx.extra["recipes"] = len(recipes)
     ctx.extra["collections_fed_to_model"] = len(pending)
-    model = C.coq_eval(IMPORTS, [ex for _, ex, _ in pending], tmpdir=ctx.tmp / "e2e", shard=40)
+    model = C.coq_eval(IMPORTS, [ex for _, ex, _ in pending], tmpdir=ctx.tmp / "e2e", shard=200, jobs=4)
     for (ccase, _, impl), mo in zip(pending, model):
-        mvalid, mip, mib, mrle, msame = mo
+        mvalid, mip, mib, mrle, msame, minfo = mo
+        ctx.compare("bin-type/bin-size attributes vs info_bins(bins table)", ccase, list(impl["info"]),
+                    [minfo[0], None if minfo[1] is None else minfo[1][1]])
         ctx.compare("valid_csr_b(raw columns) vs validator verdict", ccase, impl["oracle_ok"], mvalid)
         ctx.compare("model index_pixels vs stored indexes/bin1_offset", ccase, impl["stored_bin1_offset"], model_opt_list(mip))
         ctx.compare("model index_bins vs stored indexes/chrom_offset", ccase, impl["stored_chrom_offset"], model_opt_list(mib))
@@ -546,7 +551,10 @@ def replay(ctx, case):
     warnings.filterwarnings("ignore")
     fn = case.get("fn")
     if fn == "recipe":
-        return check_recipe(ctx, case["steps"], None, "replay")
+        try:
+            return check_recipe(ctx, case["steps"], None, "replay")
+        finally:
+            shutil.rmtree(ctx.tmp, ignore_errors=True)
     if fn == "rlencode/index":
         a = case["array"]
         if "index" in case:
